@@ -106,6 +106,25 @@ class C06(Prop):
     trusted = ["the decision tables of the receive paths (H3.Gen.FrameDispatch, ReqArms, FirstFrame, CtlArms, UniArms, FrameErrCodes) are re-read from the sources on this run and the models this property's theorems are about are proved to follow them (H3.Lemmas.GenAgreeFrame/GenAgreeReq/GenAgreeCtl, rebuilt on this run)"]
     assumptions = ["'pending forever' is judged at executor quiescence after the script ended what the call waits on (R-06)"]
 
+    # ---- the repair of D-06t (recv_trailers while a DATA payload is outstanding: `assert!` of poll_next)
+    FIX_SUBJECT = "fix: recv_trailers answers an error instead of panicking while a DATA payload is outstanding"
+    D06T_WITNESS = "adv server g0 conn.AL o2 s2:000400 o0 s0:%s0004aabb f0 q0.res q0.rb q0.rt" % REQ_HEADERS
+
+    def has_trailers_guard(self):
+        """Is the repair in the repository under test?  Yes if its commit is in the history (then call sequences
+        outside the documented pattern are generated unconditionally, so that losing the guard again is a failing
+        input), or - history rewritten - if the witness no longer panics."""
+        if getattr(self, "_guard", None) is None:
+            rc, out = vlib.sh(["git", "-C", vlib.REPO, "log", "--format=%s", "-n", "1000"])
+            self._guard = self.FIX_SUBJECT in out
+            if not self._guard:
+                try:
+                    rc, o, err = vlib.run_lines(vlib.RUN, [self.D06T_WITNESS], timeout=60)
+                    self._guard = bool(o) and " | " in o[0]
+                except Exception:
+                    self._guard = False
+        return self._guard
+
     # ---- projection: the only observables are `panic` and calls left pending on something that has ended
     def project(self, line, impl):
         ops = line.split()[3:]
@@ -423,6 +442,9 @@ class C06(Prop):
                         L.append("adv %s g1 %s" % (role, " ".join(base[:i] + [f] + base[i:])))
         # send calls left waiting for write credit / stream credit, then STOP_SENDING / RESET / close / timeout
         L += self.send_side_cases(rng, big)
+        # receive calls in ANY order, also after errors (C06_no_panic_any_call_order) - on a tree with the repair
+        if self.has_trailers_guard():
+            L += self.free_order_cases(rng, big)
         # WebTransport stream reads through both AsyncRead faces, buffers filled across calls, adversarial chunking
         L += self.wt_cases(rng, big)
         # whole connections whose transport fails, judged by the oracle H3.Spec.Faults (engine flt)
@@ -526,6 +548,42 @@ class C06(Prop):
             for e in ends_conn[:2] + ["x%d:1" % (4 * bc)]:
                 L.append("adv client %s %s" % (cfg, " ".join(pre + reqs + late + [e, "snd.R:GET:%s:-" % GET_URI])))
         return L
+
+    def free_order_cases(self, rng, big):
+        """recv_data / recv_trailers (and the loops built from them) in ARBITRARY order and number, going on after
+        errors, against bodies that are truncated by FIN, reset inside a DATA frame, left incomplete, followed by
+        trailers / a WebTransport frame / garbage - the call sequences the documented pattern excludes."""
+        L = [self.D06T_WITNESS]
+        for role in ("server", "client"):
+            for _ in range(1200 if big else 400):
+                hdr = REQ_HEADERS if role == "server" else RESP_HEADERS
+                n = rng.choice([2, 4, 4, 9])
+                have = rng.randrange(0, n + 1)
+                body = "00%02x%s" % (n, self.garbage(rng, have) if have else "")
+                k = rng.random()
+                data = hdr + (body if k < 0.6 else body + TRAILERS if k < 0.7 else "4100aabb" if k < 0.8
+                              else hx(frame(0x0, [1, 2, 3], rng)) + body if k < 0.9 else self.mutated_frames(rng))
+                end = rng.choice(["f0", "f0", "r0:7", "C256", "T", None])
+                pre = ["conn.AL", "o2", "s2:" + SETTINGS, "o0"] if role == "server" else \
+                    ["drv.W", "o3", "s3:" + SETTINGS, "snd.R:GET:%s:-" % GET_URI, "q0.fi"]
+                ev = self.chunked(0, data, rng) + ([end] if end else [])
+                calls = ["q0.res" if role == "server" else "q0.rr"]
+                calls += [rng.choice(["q0.rd", "q0.rd", "q0.rt", "q0.rt", "q0.rb", "q0.rm"]) for _ in range(rng.randrange(2, 7))]
+                # the head call first (the server's request task exists once the first bytes are there), the rest anywhere
+                ops = ev[:1] + calls[:1]
+                rest = self.merge(rng, ev[1:], calls[1:])
+                L.append("adv %s %s %s" % (role, rng.choice(["g0", "g1", "g0,seed=%d" % rng.randrange(1, 1000)]),
+                                           " ".join(pre + ops + rest)))
+        return L
+
+    def merge(self, rng, a, b):
+        a, b, out = list(a), list(b), []
+        while a or b:
+            if a and (not b or rng.random() < len(a) / (len(a) + len(b))):
+                out.append(a.pop(0))
+            else:
+                out.append(b.pop(0))
+        return out
 
     def wt_cases(self, rng, big):
         """Engine `wt` (C19's interpreter and Lean driver; projection = C19's observables, so a panic, a call left
@@ -660,6 +718,12 @@ class C06(Prop):
                     res.append(("broken", "panic-site inventory: justification of `%s` (%s) cites %s, which does not exist"
                                 % (e["line"][:60], e["file"], n), {"site": e["line"], "name": n}))
         res += self.overflow_probes()
+        if not self.has_trailers_guard():
+            res.append(("note", "the repository under test does not contain the repair `%s`: recv_trailers called while a DATA "
+                                "payload is outstanding still panics there (D-06t, witness `%s`); call sequences outside the "
+                                "documented pattern are therefore not generated on this tree and C06_no_panic_any_call_order "
+                                "speaks about the repaired function (H3.ReqRecv.pollRecvTrailersG)"
+                        % (self.FIX_SUBJECT, self.D06T_WITNESS), {}))
         if not [r for r in res if r[0] in ("broken", "violation")]:
             res.append(("note", "panic-site inventory: %d sites found on %d receive-path files, %d listed, 0 unlisted, "
                                 "%d stale table entries; %d distinct theorems cited by the justifications, all present"
